@@ -20,3 +20,9 @@ claim("C04", "reference-model monitor: counting-array brute force over real Tile
       "checked pixel by pixel (painted exactly once, locate inverse of region lookup, chunks, crop/clip re-basing); GeoboxTiles tiles compared with independently "
       "computed crops of the parent; ~2e3/3e4 seeded block mosaics (subsets of blocks x windows x dtypes x fill x axis) compared with numpy assignment.",
       _TB + " GeoBoxes reached through two different translation chains are compared to 1e-6 px, not bit for bit.", "DESIGN.md 5/C04")
+
+claim("C16", "reference-model monitor: integer-lattice rectangles vs the real GeoBox |, &, overlap_roi, enclosing, snap_to and bounding-box lattice laws",
+      "Families of 2-4 real GeoBoxes on a common grid (7 affine families, every relative placement incl. disjoint left/above and touching) are combined with the real "
+      "operators; results are mapped back to integer rectangles with plain numpy matrices and compared with min/max rectangle algebra; overlap_roi is applied to a boolean "
+      "image; incompatible grids (>=1e-3 px / scale / 0.1 deg) must raise; bounding-box laws are checked with exact float equality.",
+      _TB + " Regions in another CRS are projected with the oracle's own pyproj transformer.", "DESIGN.md 5/C16")
